@@ -259,7 +259,7 @@ pub fn step(line: &str, env: &mut Env) -> Option<Option<Val>> {
 
 // ---- line alphabets --------------------------------------------------------------------
 
-const NUM_LINES: [&str; 26] = [
+pub const NUM_LINES: [&str; 26] = [
     "a = 5",
     "b = 7",
     "a b = 9",
